@@ -293,7 +293,7 @@ func build(tier string) []*vkit.Scenario {
 					p, d := 2, 2
 					if thorough {
 						p, d = 3, 3
-					} else if m == 1 || unix {
+					} else if m == 1 || unix || mode != ekit.LT {
 						d = 1
 					}
 					add(cfg{mode: mode, unix: unix, m: m, k: k, prog: pr, p: p, d: d})
